@@ -211,10 +211,25 @@ def m_masa_map(ex, args, inst):
     return 0
 
 
+def _string_filter(uf_name, concrete):
+    """summary of the other exported helpers of masa_map.cpp (void f(std::string&)): their character-level behaviour is CBMC's job (C13)"""
+    def model(ex, args, inst):
+        from models import get_str, set_str
+        v = get_str(ex, args[0]).v
+        set_str(ex, args[0], concrete(v) if isinstance(v, str) else tm.uf(uf_name, v, sort='S'))
+        return None
+    return model
+
+
 def install_api_models(world):
+    helpers = {'MASA::masa_map(std::string*)': m_masa_map,
+               'MASA::uptolow(std::string&)': _string_filter('uptolow', lambda v: v.lower()),
+               'MASA::remove_line(std::string&)': _string_filter('remove_line', lambda v: v.replace('-', '')),
+               'MASA::remove_whitespace(std::string&)': _string_filter('remove_whitespace', lambda v: v.replace(' ', ''))}
     for n in list(world.prog.functions) + list(world.prog.decls):
-        if world.models.demangled(n) == 'MASA::masa_map(std::string*)':
-            world.models.overrides[n] = m_masa_map
+        m = helpers.get(world.models.demangled(n))
+        if m is not None:
+            world.models.overrides[n] = m
 
 
 def api_fn(world, name, scalar, sig):
